@@ -12,8 +12,9 @@ ID = "C18"
 LEVEL = "exploration"
 RULE = (
     "Hypothesis draws a result set: towers 1..4 (distinct names, lat/lon/height each) x steps 1..4 x {2-D, 3-D with 2..4 levels} on "
-    "grids of 2..5 cells per axis; field values from all finite doubles including negatives, zeros, subnormals and +-1e300 (or float32 "
-    "fields as a single-precision run returns them); unique string or integer timestamps; per-step met values with ustar or z0 "
+    "grids of 2..5 cells per axis; each of the two fields independently one of: all finite doubles including negatives, zeros, "
+    "subnormals and +-1e300 / float32 arrays as a single-precision run returns them / doubles that are all exactly representable in "
+    "single precision / all zeros / small integers / dyadic fractions; unique string or integer timestamps; per-step met values with ustar or z0 "
     "forcing; kind=real instead runs the multi-tower driver on a tiny solver configuration. The set is assembled in the documented "
     "shape (tower -> list of per-step dicts, configuration order), saved, loaded back. Oracle: footprint[t,k] and concentration[t,k] "
     "array_equal to the inputs (as float64), x/y/z equal, time labels == str(timestamp), tower names in order with their own "
@@ -28,10 +29,25 @@ BUDGET = {"quick": dict(examples=250, shards=1), "thorough": dict(examples=1500,
 _SPECIAL = [0.0, -0.0, 1.0, -1.0, 5e-324, -2.2250738585072014e-308, 1e300, -1e300, 1.7976931348623157e308, 3.141592653589793]
 
 
-def _field_values(n):
-    return st.lists(st.one_of(st.sampled_from(_SPECIAL),
-                              st.floats(allow_nan=False, allow_infinity=False),
-                              st.floats(-10.0, 10.0)), min_size=n, max_size=n)
+_KINDS = ["generic", "generic", "f32dtype", "f32exact", "zeros", "integers", "dyadic"]
+
+
+def _field_values(n, kind="generic"):
+    """Values of one field.  The two fields of a result draw their kind independently: a field of generic doubles
+    next to one whose values all happen to be exactly representable in single precision (zeros, small integers,
+    dyadic fractions, the values of a single-precision run) is an ordinary result set."""
+    if kind == "zeros":
+        el = st.sampled_from([0.0, 0.0, 0.0, -0.0])
+    elif kind == "integers":
+        el = st.integers(-1000, 1000).map(float)
+    elif kind == "dyadic":
+        el = st.integers(-4096, 4096).map(lambda k: k / 1024.0)
+    elif kind in ("f32exact", "f32dtype"):
+        el = st.one_of(st.floats(allow_nan=False, allow_infinity=False, width=32), st.floats(-10.0, 10.0, width=32),
+                       st.sampled_from([0.0, -0.0, 1.0, 1.401298464324817e-45, 3.4028234663852886e38]))
+    else:
+        el = st.one_of(st.sampled_from(_SPECIAL), st.floats(allow_nan=False, allow_infinity=False), st.floats(-10.0, 10.0))
+    return st.lists(el, min_size=n, max_size=n)
 
 
 @st.composite
@@ -53,9 +69,11 @@ def _case(draw):
                            min_size=nt, max_size=nt, unique=True))
     else:
         ts = draw(st.lists(st.integers(0, 10**9), min_size=nt, max_size=nt, unique=True))
-    f32 = draw(st.integers(0, 4)) == 0
+    fk, ck = draw(st.sampled_from(_KINDS)), draw(st.sampled_from(_KINDS))
+    if draw(st.integers(0, 5)) == 0:
+        fk = ck = "f32dtype"  # what a single-precision run returns
     case = {
-        "kind": "synthetic", "nx": nx, "ny": ny, "nlev": nlev, "names": names, "timestamps": ts, "float32": f32,
+        "kind": "synthetic", "nx": nx, "ny": ny, "nlev": nlev, "names": names, "timestamps": ts, "flx_kind": fk, "conc_kind": ck,
         "dx": draw(gen.logfl(0.1, 100.0)), "dy": draw(gen.logfl(0.1, 100.0)),
         # heights in the order the levels were requested: ascending or not
         "zlev": draw(st.lists(gen.fl(0.01, 100.0), min_size=max(nlev, 1), max_size=max(nlev, 1), unique=True)),
@@ -64,8 +82,8 @@ def _case(draw):
         "drop_first": draw(st.integers(0, 3)) == 0,  # the configuration has one more (earlier) step than is exported
         "met": [[draw(gen.fl(0.05, 1.0)), draw(gen.fl(-500.0, 500.0)), draw(gen.fl(0.1, 20.0)), draw(gen.fl(0.0, 360.0))]
                 for _ in range(nt)],
-        "flx": [[draw(_field_values(per)) for _ in range(nt)] for _ in range(ntow)],
-        "conc": [[draw(_field_values(per)) for _ in range(nt)] for _ in range(ntow)],
+        "flx": [[draw(_field_values(per, fk)) for _ in range(nt)] for _ in range(ntow)],
+        "conc": [[draw(_field_values(per, ck)) for _ in range(nt)] for _ in range(ntow)],
     }
     return case
 
@@ -103,7 +121,9 @@ def _build_synthetic(case):
     Z, Y, X = np.meshgrid(zl, y, x, indexing="ij")
     grid = (np.squeeze(X), np.squeeze(Y), np.squeeze(Z)) if nlev == 0 else (X, Y, Z)
     shape = (ny, nx) if nlev == 0 else (nlev, ny, nx)
-    dt = np.float32 if case["float32"] else np.float64
+    old = case.get("float32")  # replay files written before the per-field kinds
+    fdt = np.float32 if (case.get("flx_kind") == "f32dtype" or old) else np.float64
+    cdt = np.float32 if (case.get("conc_kind") == "f32dtype" or old) else np.float64
     met, ts, off = case["met"], case["timestamps"], 0
     if case.get("drop_first") and ts != list(range(len(ts))):
         # configured series = one extra step in front; only steps 1.. are exported
@@ -119,8 +139,8 @@ def _build_synthetic(case):
                 st_ = cfg.met.get_step(t + off)
                 steps.append({
                     "grid": grid,
-                    "flx": np.asarray(case["flx"][k][t], float).reshape(shape).astype(dt),
-                    "conc": np.asarray(case["conc"][k][t], float).reshape(shape).astype(dt),
+                    "flx": np.asarray(case["flx"][k][t], float).reshape(shape).astype(fdt),
+                    "conc": np.asarray(case["conc"][k][t], float).reshape(shape).astype(cdt),
                     "tower_name": name, "tower_xy": (cfg.towers[k].x, cfg.towers[k].y),
                     "timestamp": st_["timestamp"], "params": st_,
                 })
@@ -156,7 +176,7 @@ def check_case(case):
     out.label(case["kind"], f"towers={ntow}", f"steps={nt}", "3-D" if three_d else "2-D",
               "z0-forcing" if case["z0forcing"] else "ustar-forcing")
     if case["kind"] == "synthetic":
-        out.label("float32-fields" if case["float32"] else "float64-fields",
+        out.label(f"flx-{case.get('flx_kind', 'generic')}", f"conc-{case.get('conc_kind', 'generic')}",
                   "ts=" + type(case["timestamps"][0]).__name__)
     path = "c18_roundtrip.nc"
     if os.path.exists(path):
